@@ -637,13 +637,14 @@ def run_c12(tier, budget, rnd) -> StreamResult:
     # graph_<distribution> families ignore their generator argument and draw from a module-global unseeded
     # numpy generator: handled separately below, under its own key.)
     gens_cont = ["noisy_factory", "xos", "noisy_factory_square", "noisy_factory_exp"]
-    gens_disc = ["factory", "graph_cycle"]
+    gens_disc = ["factory", "graph_cycle", "xos_one"]
     A_cases = []
     for solver in ("greedy", "largest", "random"):
         for gi, gen in enumerate(gens_cont[:2] + gens_disc[:1] if quick else gens_cont + gens_disc):
             A_cases.append((solver, gen))
     rnd.shuffle(A_cases)
     A_cases.sort(key=lambda c: c[1] in gens_disc)        # continuous generators first
+    A_cases.insert(3, ("random", "xos_one"))   # deterministic generator: isolates the solver's own RNG
     A_cases.append(("greedy", "graph"))
     for ci, (solver, gen) in enumerate(A_cases * (1 if quick else 3)):
         if not budget.ok():
@@ -1024,6 +1025,52 @@ def run_c13(tier, budget, rnd) -> StreamResult:
     for b in script.diff():
         res.disagree("expected-greedy: model ≠ implementation", {k: b[k] for k in ("line", "impl", "model", "ctx")})
     return res
+
+
+def replay(prop: str, payload: dict):
+    """Re-run a C12 replay whose input names a real `ModelInstance` run; → (violated, message)."""
+    inp = payload.get("input") or {}
+    if prop != "C12" or inp.get("source") != "ModelInstance.get_env":
+        return False, "this replay holds the complete failing input; no re-runner for it"
+    from incomplete_cooperative.evaluation import evaluate
+    from incomplete_cooperative.run.model import ModelInstance
+    from incomplete_cooperative.solvers import SOLVERS
+    procs = inp["processes"] if isinstance(inp["processes"], list) else sorted({1, inp["processes"]})
+    tmp = tempfile.mkdtemp(prefix="verif_c12_")
+    path = os.path.join(tmp, "cap.jsonl")
+    seen = {}
+    for p in procs:
+        inst = ModelInstance(number_of_players=inp["n"], game_class=inp["game_class"], game_generator=inp["game_generator"],
+                             gap_function=inp["gap_function"], run_steps_limit=inp["run_steps_limit"], seed=inp["seed"])
+        cnt = [0]
+
+        def env_gen():
+            env = inst.get_env()
+            env._verif_rep = cnt[0]
+            cnt[0] += 1
+            return env
+        solver = SOLVERS[inp["solver"]](inst)
+        with warnings.catch_warnings():
+            warnings.simplefilter("ignore")
+            e, a = evaluate(solver.next_step, env_gen, inp["repetitions"], inp["run_steps_limit"], inst.gap_function_callable,
+                            p, Capture(path))
+        hidden = {r[0]: tuple(r[2]) for r in _read_capture(path)}
+        seen[p] = (np.array(e), np.array(a), [hidden.get(j) for j in range(inp["repetitions"])])
+    os.rmdir(tmp)
+    msgs = []
+    for p, (e, a, h) in seen.items():
+        msgs.append(f"processes={p}: {len(set(h))} distinct hidden games in {len(h)} repetitions; gap row 0 = {e[0].round(4).tolist()}")
+    p0 = procs[0]
+    games_differ = any(seen[p][2] != seen[p0][2] for p in procs)
+    result_differ = any(not (np.array_equal(seen[p][0], seen[p0][0]) and np.array_equal(seen[p][1], seen[p0][1])) for p in procs)
+    replays = any(len(set(h)) < len(h) for _, _, h in seen.values()) and inp["game_generator"] not in ("factory", "graph_cycle", "xos_one")
+    if games_differ:
+        msgs.append("the hidden games of the repetitions depend on the number of worker processes")
+    if replays:
+        msgs.append("repetitions replay one another's hidden game")
+    if result_differ and not games_differ:
+        msgs.append("same hidden games, different matrices: only the solver's own random state depends on the process count")
+    return (games_differ or replays or result_differ), "\n".join(msgs)
 
 
 def run(tier: str, budget: Budget, rnd, arg) -> StreamResult:
